@@ -12,7 +12,8 @@
 //!        D count=<k>                   number of items the iterator yielded
 //!        D set <id>:<bits> ...         the yielded (id, distance) pairs, sorted
 //!        D sorted=<0|1>                yielded distances nondecreasing
-//!        F seq <id>:<bits> ...         the yielded sequence (order among equal distances is free)
+//!        F seq <id>:<bits> ...         the yielded sequence; order among equal distances is free, so ids are
+//!                                      sorted inside every maximal run of equal distance
 use tbx_harness::*;
 use toolbox_rs::bounding_box::BoundingBox;
 use toolbox_rs::geometry::FPCoordinate;
@@ -291,10 +292,13 @@ fn generate(rng: &mut Rng, tier: Tier, cases: &mut Vec<Case>) {
         let n = 1900 + rng.below(2600) as usize;
         cases.push(d7_case(rng, n));
     }
-    // --- three levels of tree nodes (thorough only: 27000 = 30 * 900 elements fill one second-level node)
-    if thorough {
-        for &n in &[26999usize, 27000, 27001, 27030, 27931, 54001] {
-            for qk in [QKind::Diagonal, QKind::Far, QKind::Inside, QKind::BesideLon] {
+    // --- three levels of tree nodes (27000 = 30 * 900 elements fill one second-level node)
+    // (quick: two cases just above the boundary, so that a wrong child index on the second tree level shows)
+    let big: &[usize] = if thorough { &[26999, 27000, 27001, 27030, 27931, 54001] } else { &[27001] };
+    let big_q: &[QKind] = if thorough { &[QKind::Diagonal, QKind::Far, QKind::Inside, QKind::BesideLon] } else { &[QKind::Diagonal, QKind::Far] };
+    {
+        for &n in big {
+            for &qk in big_q {
                 let r = random_region(rng);
                 let shape = if rng.chance(1, 2) { Shape::Uniform } else { Shape::Clustered };
                 let pts = points(rng, shape, n, r);
@@ -369,7 +373,18 @@ fn execute(c: &Case, obs: &mut Vec<String>) {
     obs.push(tagged("D set", set.iter().map(|(i, d)| format!("{i}:{d}"))));
     let sorted_flag = seq.windows(2).all(|w| f64::from_bits(w[0].1) <= f64::from_bits(w[1].1));
     obs.push(format!("D sorted={}", if sorted_flag { 1 } else { 0 }));
-    obs.push(tagged("F seq", seq.iter().map(|(i, d)| format!("{i}:{d}"))));
+    // order among equal distances is free: ids are sorted inside every maximal run of equal distance
+    let mut canon = seq.clone();
+    let mut i = 0;
+    while i < canon.len() {
+        let mut j = i;
+        while j < canon.len() && canon[j].1 == canon[i].1 {
+            j += 1;
+        }
+        canon[i..j].sort();
+        i = j;
+    }
+    obs.push(tagged("F seq", canon.iter().map(|(i, d)| format!("{i}:{d}"))));
 }
 
 fn main() {
